@@ -105,6 +105,11 @@ func (t *treePipeline) mkdir(r io.Reader, cfg *config) error {
 	splitStream, errcsl := split(ctx, r)
 	rootStream, errcr := newRootGeneratorPipeline().generate(ctx, splitStream)
 	growStream, errcg := t.grower.grow(ctx, rootStream)
+	if cfg.dryrun {
+		// when detected no invalid node name, output tree.
+		errcs := t.spreader.spread(ctx, color.Output, growStream)
+		return t.handlePipelineErr(ctx, errcsl, errcr, errcg, errcs)
+	}
 	errcm := t.mkdirer.mkdir(ctx, growStream)
 	return t.handlePipelineErr(ctx, errcsl, errcr, errcg, errcm)
 }
